@@ -205,6 +205,15 @@ def ensure_model():
             raise BuildError('model build failed:\n' + (r.stdout + r.stderr)[-3000:])
     return MODELDRV
 
+def big_stack():
+    """the extracted model recurses over byte lists (1 MiB records => deep recursion): lift the stack limit"""
+    import resource
+    try:
+        soft, hard = resource.getrlimit(resource.RLIMIT_STACK)
+        resource.setrlimit(resource.RLIMIT_STACK, (hard, hard))
+    except Exception:
+        pass
+
 def run_lines(exe, lines, env=None, timeout=3600, shards=1):
     """Feed case lines to a driver; returns list of output lines (same length)."""
     if shards > 1 and len(lines) >= 2 * shards:
@@ -217,7 +226,7 @@ def run_lines(exe, lines, env=None, timeout=3600, shards=1):
     e = dict(os.environ)
     if env:
         e.update(env)
-    r = subprocess.run([exe] if isinstance(exe, str) else exe, input=data, capture_output=True, timeout=timeout, env=e)
+    r = subprocess.run([exe] if isinstance(exe, str) else exe, input=data, capture_output=True, timeout=timeout, env=e, preexec_fn=big_stack)
     out = r.stdout.decode('latin1').split('\n')
     if out and out[-1] == '':
         out.pop()
